@@ -106,11 +106,21 @@ Section Inline.
     end.
   Lemma iok_call f xs : iok (PCall f xs) <-> call_stable f xs /\ iok_args (mask_of E f) 0 xs.
   Proof.
-    simpl. split; intros [H1 H2]; split; auto.
-    - revert H2. generalize 0%nat. induction xs; intros j H; simpl in *; auto. destruct H as [Ha Hr]. split; auto.
-      intros Hm. specialize (Ha Hm). clear -Ha. induction a; simpl in *; auto. destruct Ha; split; auto.
-    - revert H2. generalize 0%nat. induction xs; intros j H; simpl in *; auto. destruct H as [Ha Hr]. split; auto.
-      intros Hm. specialize (Ha Hm). clear -Ha. induction a; simpl in *; auto. destruct Ha; split; auto.
+    cbn [iok].
+    assert (Hall : forall t,
+      (fix all (t : tmpl) : Prop := match t with [] => True | q :: t' => iok q /\ all t' end) t <-> iok_all t).
+    { induction t; simpl; tauto. }
+    assert (Hargs : forall l j,
+      (fix go (j : nat) (l : list tmpl) : Prop :=
+         match l with
+         | [] => True
+         | a :: r => (mask_of E f j = false ->
+                      (fix all (t : tmpl) : Prop := match t with [] => True | q :: t' => iok q /\ all t' end) a)
+                     /\ go (S j) r
+         end) j l <-> iok_args (mask_of E f) j l).
+    { induction l; intros j; [simpl; tauto|].
+      specialize (IHl (S j)). specialize (Hall a). cbn [iok_args]. tauto. }
+    specialize (Hargs xs 0%nat). tauto.
   Qed.
 
   Definition P (p : piece) : Prop := iok p -> meq (with_args A (ps p)) (mconcat (map ps (sub p))).
@@ -154,12 +164,16 @@ Section Inline.
     - apply iok_call in H0. destruct H0 as [Hst Hargs].
       unfold sub. rewrite subst_piece_call. simpl map.
       eapply meq_trans; [|apply meq_sym, mconcat_single].
-      unfold ps. rewrite !piece_stage_call. unfold call_stable in Hst. unfold mask_of in Hargs.
+      unfold ps. rewrite !piece_stage_call. unfold call_stable in Hst. unfold mask_of in *.
       destruct (lookup E f) as [[h|b]|] eqn:L.
       + (* a helper *)
         simpl ctor_of_def. unfold ctor_of.
         eapply meq_trans; [apply interp_subst; eapply NT; eauto|].
-        fold ast. rewrite <- Hst. apply interp_meq.
+        change (fun a : list piece => mconcat (map (piece_stage false c0 E) a)) with ast.
+        change (arg_stage false c0 E) with ast.
+        match goal with |- meq _ (interp _ _ ?p') =>
+          replace p' with (h_body h c0 (map (static c0) (map ast args0))) by (exact Hst) end.
+        apply interp_meq.
         apply args_inline; auto.
       + (* an earlier funcs-file function *)
         simpl ctor_of_def. unfold ufun.
@@ -195,7 +209,8 @@ Section Inline.
     { destruct o; [apply eval_opt_sound; auto|apply meq_refl]. }
     eapply meq_trans; [apply Hl|]. eapply meq_trans; [|apply meq_sym, Hr].
     eapply meq_trans; [|apply body_inline_plain; auto].
-    unfold eval_tmpl at 1. unfold compiled. simpl finish. simpl map. rewrite piece_stage_call, L.
+    change (eval_tmpl false c0 E [PCall f args]) with (mconcat [piece_stage false c0 E (PCall f args)]).
+    rewrite piece_stage_call, L.
     simpl ctor_of_def. unfold ufun.
     eapply meq_trans; [apply mconcat_single|].
     apply with_args_meq.
